@@ -35,7 +35,7 @@ let rec show_ftok b (t : ftok) =
 
 (* ---- cursor protocol ---- *)
 let str_of_word w = if w = "-" then [] else List.map (fun x -> n_of_int (int_of_string x)) (String.split_on_char '.' w)
-let rec parse_toks (ws : string list) : tok list * string list =
+let rec parse_toks (ws : Stdlib.String.t list) : tok list * Stdlib.String.t list =
   match ws with
   | [] -> ([], [])
   | ")" :: rest -> ([], ")" :: rest)
@@ -51,7 +51,7 @@ let rec parse_toks (ws : string list) : tok list * string list =
        | _ -> failwith ("bad token " ^ w))
 let pat_of w = match String.split_on_char ':' w with
   | ["s"; s] -> PStr (str_of_word s) | ["m"; m] -> PMark (n_of_int (int_of_string m)) | _ -> failwith ("bad pat " ^ w)
-let op_of (ws : string list) : cop =
+let op_of (ws : Stdlib.String.t list) : cop =
   match ws with
   | ["go"; k] -> OGetOffset (nat_of_int (int_of_string k)) | ["gn"; k] -> OGetOffsetOrNull (nat_of_int (int_of_string k))
   | ["g"] -> OGetOrNull | ["pop"] -> OPop | ["mv"; k] -> OMove (nat_of_int (int_of_string k)) | ["close"] -> OClose
@@ -66,25 +66,65 @@ let op_of (ws : string list) : cop =
   | "Sset" :: l -> OSearchMoveSet (List.map str_of_word l) | "Ssetu" :: l -> OSearchMoveSetUpper (List.map str_of_word l)
   | ["split"; s] -> OPopSplit (str_of_word s)
   | _ -> failwith ("bad op " ^ String.concat " " ws)
-let rec split_ops (ws : string list) (cur : string list) : string list list =
+let rec split_ops (ws : Stdlib.String.t list) (cur : Stdlib.String.t list) : Stdlib.String.t list list =
   match ws with
   | [] -> if cur = [] then [] else [List.rev cur]
   | ";" :: rest -> (List.rev cur) :: split_ops rest []
   | w :: rest -> split_ops rest (w :: cur)
 let show_toks ts = let b = Buffer.create 64 in List.iter (show_tok b) ts; String.trim (Buffer.contents b)
-let show_out (o : cout) : string =
+let show_out (o : cout) : Stdlib.String.t =
   match o with
   | CErr e -> "E:" ^ err_name e
-  | COk VUnit -> "U"
-  | COk (VBool true) -> "T" | COk (VBool false) -> "F"
-  | COk (VTok None) -> "tok[none]" | COk (VTok (Some t)) -> "tok[" ^ show_toks [t] ^ "]"
-  | COk (VStr None) -> "str[none]" | COk (VStr (Some s)) -> "str[" ^ cps s ^ "]"
-  | COk (VScanner ts) -> "sc[" ^ show_toks ts ^ "]"
-  | COk (VScanners l) -> "scs[" ^ String.concat "|" (List.map show_toks l) ^ "]"
+  | COk CVUnit -> "U"
+  | COk (CVBool true) -> "T" | COk (CVBool false) -> "F"
+  | COk (CVTok None) -> "tok[none]" | COk (CVTok (Some t)) -> "tok[" ^ show_toks [t] ^ "]"
+  | COk (CVStr None) -> "str[none]" | COk (CVStr (Some s)) -> "str[" ^ cps s ^ "]"
+  | COk (CVScanner ts) -> "sc[" ^ show_toks ts ^ "]"
+  | COk (CVScanners l) -> "scs[" ^ String.concat "|" (List.map show_toks l) ^ "]"
+
+(* ---- values ---- *)
+let char_of_ascii (a : ascii) : char =
+  match a with Ascii (b0, b1, b2, b3, b4, b5, b6, b7) ->
+    let v b k = if b then 1 lsl k else 0 in
+    Char.chr (v b0 0 + v b1 1 + v b2 2 + v b3 3 + v b4 4 + v b5 5 + v b6 6 + v b7 7)
+let ascii_of_char (c : char) : ascii =
+  let n = Char.code c in let b k = (n lsr k) land 1 = 1 in Ascii (b 0, b 1, b 2, b 3, b 4, b 5, b 6, b 7)
+let rec string_of_coq (s : string) : Stdlib.String.t =
+  match s with EmptyString -> "" | String (a, r) -> Stdlib.String.make 1 (char_of_ascii a) ^ string_of_coq r
+let coq_of_string (s : Stdlib.String.t) : string =
+  let r = ref EmptyString in
+  for i = Stdlib.String.length s - 1 downto 0 do r := String (ascii_of_char s.[i], !r) done; !r
+let rec z_to_string (z : z) : Stdlib.String.t =
+  match z with Z0 -> "0" | Zpos p -> big_pos p | Zneg p -> "-" ^ big_pos p
+and big_pos (p : positive) : Stdlib.String.t =
+  (* decimal printing of a positive of any size: repeated division by 10 on the bit list *)
+  let rec bits p acc = match p with XH -> true :: acc | XO q -> bits q (false :: acc) | XI q -> bits q (true :: acc) in
+  let bl = bits p [] in          (* most significant first *)
+  let digits = ref [0] in        (* little endian decimal *)
+  List.iter (fun b ->
+    let carry = ref (if b then 1 else 0) in
+    digits := List.map (fun d -> let v = d * 2 + !carry in carry := v / 10; v mod 10) !digits;
+    if !carry > 0 then digits := !digits @ [!carry]) bl;
+  String.concat "" (List.rev_map string_of_int !digits)
+let rec dump_value b (v : value) =
+  match v with
+  | VNone -> Buffer.add_string b "None"
+  | VBool true -> Buffer.add_string b "T" | VBool false -> Buffer.add_string b "F"
+  | VEnum (c, n) -> Buffer.add_string b (string_of_coq c ^ "." ^ string_of_coq n)
+  | VInt z -> Buffer.add_string b ("i:" ^ z_to_string z)
+  | VStr s -> Buffer.add_string b ("s:" ^ cps s)
+  | VTuple l -> Buffer.add_char b '('; List.iteri (fun i x -> if i > 0 then Buffer.add_char b ','; dump_value b x) l; Buffer.add_char b ')'
+  | VList l -> Buffer.add_char b '['; List.iteri (fun i x -> if i > 0 then Buffer.add_char b ','; dump_value b x) l; Buffer.add_char b ']'
+  | VNode (c, fs) ->
+      Buffer.add_string b (string_of_coq c); Buffer.add_char b '{';
+      List.iteri (fun i (k, x) -> if i > 0 then Buffer.add_char b ';'; Buffer.add_string b (string_of_coq k); Buffer.add_char b '='; dump_value b x) fs;
+      Buffer.add_char b '}'
+let dialect_of (name : Stdlib.String.t) : sqltype =
+  try List.find (fun d -> string_of_coq (sqltype_name d) = name) all_sqltypes with Not_found -> failwith ("bad dialect " ^ name)
 
 let ints_of words = List.map (fun w -> n_of_int (int_of_string w)) words
 
-let handle (line : string) : string =
+let handle (line : Stdlib.String.t) : Stdlib.String.t =
   let words = List.filter (fun w -> w <> "") (String.split_on_char ' ' line) in
   match words with
   | "LEX" :: mb :: flags :: rest ->
@@ -112,6 +152,12 @@ let handle (line : string) : string =
       String.concat " " (List.map (fun (((s, t), i), path) ->
         Printf.sprintf "%d:%s%s" (int_of_n (dev_family ((s, t), i))) (cps path) (match i with None -> "$" | Some _ -> "")) ds)
   | "HASPH" :: rest -> if has_ph_open false (ints_of rest) then "1" else "0"
+  | "PARSE" :: mb :: entry :: dialect :: rest ->
+      (try
+         (match parse_text (mb = "1") (coq_of_string entry) (dialect_of dialect) (ints_of rest) with
+          | Ok v -> let b = Buffer.create 512 in Buffer.add_string b "OK "; dump_value b v; Buffer.contents b
+          | Err e -> "ERR " ^ err_name e)
+       with Failure m -> "BAD-REQUEST " ^ m)
   | "CURSOR" :: rest ->
       (try
          let (toks, rest1) = parse_toks rest in
